@@ -103,12 +103,22 @@ Definition reslice (three : bool) (v : hval) (i j : nat) : hval :=
 
 Definition h_is_empty (v : hval) : bool := match v with HEmpty => true | _ => false end.
 
-(* model parameter: how updateArraySlice reslices.  [current] = the code as it is (v[start:end:end], since
-   the fix commit 8b3b8e6); [two_index] = the code before that fix (v[start:end]), kept for the regression
-   example D4 in HeapWitness.v *)
-Record config := { three_index : bool }.
-Definition current : config := {| three_index := true |}.
-Definition two_index : config := {| three_index := false |}.
+(* model parameters.  [three_index]: how updateArraySlice reslices; [current] = the code as it is
+   (v[start:end:end], since the fix commit 8b3b8e6); [two_index] = the code before that fix (v[start:end]), kept
+   for the regression example D4 in HeapWitness.v.
+   [clear_exposed]: whether the in-place growth of updateArrayIndex (`v = v[:i+1]`) also does `clear(v[l:i])`,
+   i.e. writes nil into the cells l..i-1 it exposes (the code as it is since the fix commit 73ac0b6);
+   [old_growth] = the code before that fix (the exposed cells keep whatever the backing array held), kept for
+   the regression example D11 in HeapWitness.v *)
+Record config := { three_index : bool; clear_exposed : bool }.
+Definition current : config := {| three_index := true; clear_exposed := true |}.
+Definition two_index : config := {| three_index := false; clear_exposed := true |}.
+Definition old_growth : config := {| three_index := true; clear_exposed := false |}.
+
+(* `if i >= l { v = v[:i+1]; clear(v[l:i]) }` of updateArrayIndex on the array at address a seen from offset
+   off with length l: the cells l..i-1 of the slice become nil (nothing happens when i <= l) *)
+Definition clear_cells (ce : bool) (h : heap) (a off l i : nat) : heap :=
+  if ce && Nat.leb l i then write_cells h a (off + l) (repeat HNull (i - l)) else h.
 
 (* the value returned for a nil input that is returned unchanged is the untyped nil *)
 Definition norm_nil (v : hval) : hval := match v with HNilArr => HNull | _ => v end.
@@ -171,7 +181,9 @@ Fixpoint update (h : heap) (A : alloc) (v : hval) (p : path) (n : hval) : option
               if allocated A1 v then
                 if Nat.ltb i c then
                   match v with
-                  | HArr a off _ cap => Some (write_cell h1 a (off + i) u, A1, HArr a off (if Nat.leb l i then S i else l) cap)
+                  | HArr a off _ cap =>
+                      Some (write_cell (clear_cells cfg.(clear_exposed) h1 a off l i) a (off + i) u, A1,
+                            HArr a off (if Nat.leb l i then S i else l) cap)
                   | _ => None
                   end
                 else fresh (2 * c)%nat
